@@ -54,6 +54,9 @@ type Engine struct {
 	ctx   context.Context
 }
 
+// QuietCtx: a context whose logger discards everything.
+func QuietCtx() context.Context { return quietCtx() }
+
 func quietCtx() context.Context {
 	return logging.ContextWithLogger(context.Background(), logging.NewLogrus(quietLogrus()))
 }
